@@ -61,6 +61,8 @@ def run_one(m, props=None):
         return dict(name=m["name"], ok=ok, caught=caught, broken=broken, results=res, detail=m.get("what", ""))
     finally:
         shutil.rmtree(s, ignore_errors=True)
+        import hashlib
+        shutil.rmtree(os.path.join(VERIF, "out", "selftest", hashlib.sha256(s.encode()).hexdigest()[:10]), ignore_errors=True)
 
 
 def main(argv):
